@@ -82,3 +82,18 @@ func init() {
 		Thorough:    plan{Builds: []buildCfg{{Race: true, Share: 3}, {Race: false, Share: 2}, {Race: true, Tags: []string{"protoopaque"}, Share: 1}}, Secs: 900},
 	}
 }
+
+func init() {
+	props["C19"] = &propCfg{
+		Level:       "exploration",
+		Rule:        "a scenario is a seeded set of never-used lazily initialised objects and 2-4 client scripts of first-use entry points under a seeded schedule; mode inproc builds fresh copies (compact-builder file descriptors over a local registry, MessageInfo, ExtensionInfo, dynamicpb.Types, registries swapped into GlobalFiles/GlobalTypes); mode process re-executes the worker binary so the process-global generated types, descriptors, legacy wrappers and caches are themselves unused when the clients start; non-trivial = at least one context switch inside an operation; distinct by switch-signature hash",
+		Assumptions: append([]string{"first-use observations are compared with the same operations executed sequentially (dry run on a second fresh copy; in process mode: repeated single-threaded after the run)"}, commonAssumptions...),
+		Components:  comps("GlobalFiles/GlobalTypes point at fresh registries during in-process runs", "process boundary: os/exec of the same worker binary for one scenario"),
+		Clauses:     "no data race, no panic, no deadlock; every client observes the same descriptors (rendered through the accessor set, lookup tables mutually consistent, single instance where promised) and the same codec/reflection behaviour as the sequential run; registry content equals what was registered",
+		NotDecided:  "conflicting registrations on the global registries (they panic by policy); first use of objects the harness itself must touch before clients start (type lookup by name, New)",
+		Probes:      []string{"once-contended", "lock-parked", "descriptor-instances-compared", "inproc-scenarios", "process-scenarios", "global-registrations"},
+		FaultKinds:  []string{"sched-switch", "process-restart"},
+		Quick:       plan{Builds: []buildCfg{{Race: true, Share: 1}}, Secs: 35},
+		Thorough:    plan{Builds: []buildCfg{{Race: true, Share: 3}, {Race: true, Tags: []string{"protolegacy"}, Share: 1}, {Race: false, Share: 1}}, Secs: 900},
+	}
+}
